@@ -18,13 +18,15 @@ class C07(F.Spec):
             "remaining time never increases. Non-trivial: a timer finished; distinct = (channels, durations class).")
     assumptions = ["timer callbacks run at their due time (jitter only from other callbacks running to completion)",
                    "commands on other channels are at least 100 ms apart (faster alternating streams can starve the shared "
-                   "timer: DESIGN.md F6, not generated)", "restore after reboot is not exercised (not covered)"]
+                   "timer: DESIGN.md F6, not generated)", "a reboot is a fresh process image of the driver started on the flash content the firmware had written (power cut: no save at the moment of the cut)"]
 
     def cases(self, rng, tier):
         for i in range(60 if tier == "quick" else 600):
             yield self.gen_probe(rng, i)
         for i in range(60 if tier == "quick" else 600):
             yield self.gen_scenario(rng, i)
+        for i in range(40 if tier == "quick" else 400):
+            yield self.gen_reboot(rng, i)
 
     def gen_probe(self, rng, i):
         ops = ["board relay8", "init"]
@@ -53,10 +55,38 @@ class C07(F.Spec):
             ops.append("msg 110 " + set_value(9, ch, d, bytes([v] + [0] * 7)).hex())
             cmds.append((now, ch, v, d))
             step = rng.choice([100, 150, 300, 700, 1500, 3000, 11000])
-            ops.append("adv %d" % step)
+            self.wait(ops, step)
             now += step
-        ops.append("adv 62000")
+        self.wait(ops, 62000)
         return F.Case("scen%d" % i, ops, {"tags": ["kind:scenario", "relays:%d" % nrel], "kind": "scenario", "cmds": cmds})
+
+    @staticmethod
+    def wait(ops, ms):
+        """advance in steps of at most 1 s; the server answers every ping (keep-alive and the watchdog are C05's subject)"""
+        while ms > 0:
+            k = min(ms, 1000)
+            ops.append("adv %d" % k)
+            ms -= k
+            if k == 1000:
+                ops.append("pingreply")
+
+    def gen_reboot(self, rng, i):
+        """a timer is pending, the device is power-cycled (flash kept) or restarts itself; relays restore their state"""
+        nrel = rng.choice([1, 2, 4, 8])
+        flags = [rng.choice([4, 4, 2, 0]) | rng.choice([0, 0, 0x10]) for _ in range(nrel)]      # RESTORE_FORCE / RESTORE / none, active-low
+        cflags = [rng.choice([0, 0x01000000, 0x01000000]) for _ in range(nrel)]                           # COUNTDOWN_TIMER_SUPPORTED
+        setup = ["board relay%d" % nrel] + ["relflags %d %d %d" % (k, flags[k], cflags[k]) for k in range(nrel)] + ["init"]
+        ops = list(setup) + ["adv 200"]
+        for _ in range(rng.randint(1, 3)):
+            ch = rng.randrange(nrel)
+            v = rng.choice([1, 1, 1, 0])
+            d = rng.choice([2500, 5000, 10000, 12345, 30000, 60000])
+            ops.append("msg 110 " + set_value(9, ch, d, bytes([v] + [0] * 7)).hex())
+            self.wait(ops, rng.choice([100, 300, 700, 1200, 1500, 2100, 3000]))
+        ops.append("reboot")
+        ops += setup
+        self.wait(ops, 62000)
+        return F.Case("reboot%d" % i, ops, {"tags": ["kind:reboot", "relays:%d" % nrel], "kind": "reboot", "flags": flags, "cflags": cflags})
 
     def derive_model(self, case, raw):
         ops, exp = ["init"], [[]]
@@ -72,17 +102,49 @@ class C07(F.Spec):
     def monitor(self, case, groups, rc, err):
         if rc != 0:
             return [F.Finding("crash", "implementation aborted (rc=%s): %s" % (rc, err[-900:]))]
-        fs = []
         raw = case.meta.get("raw_impl") or []
-        if case.meta.get("kind") != "scenario":
-            return fs
-        # reconstruct command times from the ops, edges from the GPIO lines (relay gpio = 1 + channel)
+        kind = case.meta.get("kind")
+        if kind is None and any(o.startswith("msg 110 ") for o in case.ops):
+            kind = "reboot" if "reboot" in case.ops else "scenario"
+        if kind not in ("scenario", "reboot"):
+            return []
+        # one "life" per power cycle
+        lives, cur = [], ([], [])
+        for op, g in zip(case.ops, raw):
+            if op == "reboot":
+                lives.append(cur)
+                cur = ([], [])
+            else:
+                cur[0].append(op)
+                cur[1].append(g)
+        lives.append(cur)
+        fs = []
+        for li, (ops, gs) in enumerate(lives):
+            fs += self.check_life(ops, gs, li)
+        return fs
+
+    def check_life(self, ops, raw, li):
+        """commands, GPIO edges and the published remaining times of one life (time runs from 0 in every life)"""
+        fs = []
         now, cmds = 0, []
         edges = {}
-        left = {}
-        for op, g in zip(case.ops, raw):
+        nrel = 2
+        flags, cflags = {}, {}
+        boot = None
+        pub = {}          # channel -> published remaining time (supla_esp_state.Time2Left)
+        active = {}       # channel -> (t0, d, v) of the running timer
+        end = None
+        init_level, after_init = {}, {}
+        for op, g in zip(ops, raw):
             t = op.split()
-            if t[0] == "adv":
+            if any(x == "RESTART" for x in g):
+                end = now                     # the device restarted itself inside this op: nothing is expected after it
+                break
+            if t[0] == "board" and t[1].startswith("relay"):
+                nrel = int(t[1][5:])
+            elif t[0] == "relflags":
+                flags[int(t[1])], cflags[int(t[1])] = int(t[2]), int(t[3])
+            elif t[0] == "adv":
                 now += int(t[1])
             elif t[0] == "msg" and t[1] == "110":
                 for x in g:
@@ -90,21 +152,56 @@ class C07(F.Spec):
                         now = int(x.split()[1]) // 1000      # true time: earlier ops advanced it by their os_delay_us
                 pl = bytes.fromhex(t[2])
                 ch, d, v = pl[4], int.from_bytes(pl[5:9], "little"), pl[9]
-                cmds.append((now, ch, 1 if v else 0, d))
-                left.pop(ch, None)
+                v = 1 if v else 0
+                cmds.append((now, ch, v, d))
+                if d > 0 and ch < nrel and (v == 1 or cflags.get(ch, 0x01000000) & 0x01000000):
+                    active[ch] = (now, d, v)
+                else:
+                    active.pop(ch, None)
             for x in g:
-                if x.startswith("GPIO "):
+                if x.startswith("BOOTSTATE "):
+                    p = x.split()
+                    boot = ([int(v) for v in p[1].split("=")[1].split(",")], [int(v) for v in p[2].split("=")[1].split(",")], now)
+                    for ch, v in enumerate(boot[1]):
+                        if v:
+                            pub[ch] = v
+                elif x.startswith("GPIO "):
                     _, pin, lvl, tm = x.split()
-                    edges.setdefault(int(pin) - 1, []).append((int(tm), int(lvl)))
+                    k = int(pin) - 1
+                    logical = int(lvl) ^ (1 if flags.get(k, 0) & 0x10 else 0)
+                    edges.setdefault(k, []).append((int(tm), logical))
+                    if t[0] == "init":
+                        init_level[k] = logical
+                    else:
+                        after_init.setdefault(k, []).append((int(tm), logical))
+                    if k in active and logical == 1 - active[k][2] and int(tm) >= (active[k][0] + active[k][1]) * 1000 - 500:
+                        active.pop(k)         # the timer fired
                 elif x.startswith("CHG Time2Left "):
                     _, _, idx, val = x.split()
-                    idx, val = int(idx), int(val)
-                    if idx in left and val > left[idx]:
-                        fs.append(F.Finding("remaining-time-increased", "channel %d: remaining time went from %d to %d ms with no new command" % (idx, left[idx], val)))
-                    left[idx] = val
-        end = now
+                    pub[int(idx)] = int(val)
+            if t[0] in ("adv", "msg", "init") and (boot is None or t[0] != "init"):
+                # what is published (and would be saved) must be the remaining time of the channel's own timer
+                for ch in range(8):
+                    pv = pub.get(ch, 0)
+                    if boot is not None and not cmds:
+                        continue              # restored timers are judged below
+                    if ch in active:
+                        rem = active[ch][0] + active[ch][1] - now
+                        # a command on any channel re-arms the shared timer and postpones the next update
+                        recent = any(now - c[0] < 1100 for c in cmds if c[0] > active[ch][0])
+                        hi = active[ch][1] if recent else rem + 1000 + 80
+                        if rem > 80 and not (rem - 80 <= pv <= hi):
+                            fs.append(F.Finding("published-time-wrong", "channel %d: %d ms published while %d ms of its %d ms timer remain"
+                                                % (ch, pv, rem, active[ch][1])))
+                    elif pv != 0 and not any(c[1] == ch and now - c[0] < 150 for c in cmds):
+                        fs.append(F.Finding("published-time-wrong", "channel %d has no timer running but %d ms are published as remaining" % (ch, pv)))
+        if end is None:
+            end = now
+        # timed commands of this life
         for k, (t0, ch, v, d) in enumerate(cmds):
             if d == 0:
+                continue
+            if v == 0 and not cflags.get(ch, 0x01000000) & 0x01000000:
                 continue
             newer = [c for c in cmds[k + 1:] if c[1] == ch]
             t_next = newer[0][0] if newer else None
@@ -125,6 +222,39 @@ class C07(F.Spec):
                 fs.append(F.Finding("timer-late", "channel %d: %d ms timer fired after %.1f ms" % (ch, d, dt)))
             if len(mine) > 1 and all(lvl == 1 - v for tm, lvl in edges.get(ch, []) if tm in mine[:2]):
                 fs.append(F.Finding("timer-fired-twice", "channel %d: two switch-back edges" % ch))
+        # a life that started from saved state: relays come back as saved and switch back after the saved remaining time
+        if boot is not None and not cmds:
+            relay, left, t_init = boot
+            for k in range(nrel):
+                ch = k
+                restore = bool(flags.get(k, 0) & 0x06)
+                # pin low at power-on; edges during the init op give the restored level, later ones belong to timers
+                level_after_init = init_level.get(k, 0 ^ (1 if flags.get(k, 0) & 0x10 else 0))
+                later = after_init.get(k, [])
+                if not restore:
+                    if later:
+                        fs.append(F.Finding("spurious-switch-after-reboot", "relay %d has no restore flag but switched %d ms after the boot" % (k, later[0][0] // 1000)))
+                    continue
+                want = 1 if relay[k] else 0
+                if level_after_init != want:
+                    fs.append(F.Finding("state-not-restored", "relay %d: saved state %d, level after boot %d" % (k, want, level_after_init)))
+                T = left[ch]
+                timed = T > 0 and (want == 1 or cflags.get(k, 0x01000000) & 0x01000000)
+                if not timed:
+                    if later:
+                        fs.append(F.Finding("spurious-switch-after-reboot", "relay %d: no remaining time saved (%d ms, state %d) but it switched %d ms after the boot" % (k, T, want, later[0][0] // 1000)))
+                    continue
+                if t_init + T + 300 > end:
+                    continue
+                back = [e for e in later if e[1] == 1 - want]
+                if not back:
+                    fs.append(F.Finding("restored-timer-did-not-fire", "relay %d came back %d with %d ms remaining but never switched back" % (k, want, T)))
+                    continue
+                dt = back[0][0] / 1000.0 - t_init
+                if dt < T - 0.5 or dt > T + 100 + 40:
+                    fs.append(F.Finding("restored-timer-wrong-time", "relay %d: %d ms remained at the restart, switched back %.1f ms after the boot" % (k, T, dt)))
+                if len(later) > 1:
+                    fs.append(F.Finding("restored-timer-fired-twice", "relay %d: %d level changes after the boot" % (k, len(later))))
         return fs
 
     def nontrivial_key(self, case, groups):
